@@ -317,6 +317,17 @@ def run(ctx, params):
 
         def judge(directives, first, skind, pct=None):
             ns = fresh()
+            try:
+                return judge_in(ns, directives, first, skind, pct)
+            finally:
+                # every schedule runs on freshly exec-ed classes: let go of them (module registry, scheduler's code cache)
+                import sys as _sys
+
+                _sys.modules.pop(ns.get("__name__"), None)
+                ns.clear()
+                S._interesting.clear()
+
+        def judge_in(ns, directives, first, skind, pct=None):
             fns = [trigger_fn(ns, t, c) for t, c in plan]
             r = S.run(fns, directives=directives, first=first, pct=pct, watchdog=30.0)
             ctx.count("schedules_run")
